@@ -1336,6 +1336,7 @@ func init() {
 }
 
 func checkC09(c *Check) {
+	c09Extra(c)
 	p := c.P
 	an := c09new(p)
 	hostInfoT := p.Named(pACL, "HostInfo")
